@@ -697,6 +697,13 @@ def c03(rep, tier):
                                     witness={'input': 'a routine longer than %d instructions (e.g. 100 calls of a 200-parameter program)' % (2 ** (8 * WIDTH[lt] - 1) - 1)})
                     else:
                         G.ok(inst, 'operand field of type %s holds every instruction distance' % lt, W(m, f, x) if f in m.all_fns() else os.path.relpath(f['file'], m.facts.repo) + ':%d' % x['loc'][0])
+    for tq in ('Theo::JumpOffset', 'Theo::ProgramIndex', 'Theo::RegisterIndex', 'Theo::RegisterCount', 'Theo::StackMapIndex'):
+        td = m.facts.typedefs.get(tq)
+        if td is not None:
+            ct = (td.get('cty') or '').replace('const ', '')
+            G.check(ct in WIDTH and WIDTH[ct] >= WIDTH['int'], 'operand type %s' % tq.split('::')[-1], '%s: as wide as the int positions, counts and registers the generator computes' % ct,
+                    '%s is %s, narrower than the int values the generator stores into it: instruction positions / register numbers / frame sizes beyond %d wrap around' % (
+                        tq.split('::')[-1], ct, 2 ** (8 * WIDTH.get(ct, 4) - 1) - 1), 'VM/include/instr.hpp')
     # labels created into locals are set exactly once
     for f in m.all_fns():
         gg = None
@@ -1258,6 +1265,22 @@ def c08(rep, tier):
                           any(y.get('k') == 'ref' and y.get('d') == oe['d'] for y in walk_expr((x.get('args') or [x.get('r')])[0] or {}))]
                     if not wb:
                         why.append('the site is removed from %s, a by-value copy of the location\'s list that is never written back: the table keeps the popped site' % oe['name'])
+        # what is taken out of the location's list is the popped index (the value that is erased from line_info), not another number
+        if len(li_er) == 1 and li_er[0].e.get('args'):
+            kx = strip_conv(li_er[0].e['args'][0])
+            if is_call(kx, '::find') and kx.get('args'):
+                kx = strip_conv(kx['args'][0])
+            for pev in pb_elem:
+                vals_ = []
+                for x in walk_expr(pev.e):
+                    if x.get('k') == 'call' and (x.get('callee') or '').split('<')[0] in ('std::remove', 'std::find', 'std::erase', 'std::ranges::remove', 'std::ranges::find') and len(x.get('args', [])) >= 2:
+                        vals_.append(x['args'][-1])
+                for v_ in vals_:
+                    v0 = strip_conv(v_)
+                    if kx is not None and v0 is not None and show(v0) != show(kx) and not m.same_var(v0, kx):
+                        o1, o2 = m.origin(f, v0), m.origin(f, kx)
+                        if o1 is None or o2 is None or show(strip_casts(o1)) != show(strip_casts(o2)):
+                            why.append('the value removed from the location\'s site list is %s, but the popped instruction is %s: the popped site stays listed' % (show(v0), show(kx)))
         # the instruction is popped exactly when its table entries are removed (same conditions)
         if len(li_er) == 1:
             gp_ = set((cn.id, str(label)) for cond, label, cn in gg.guards_of(popev))
@@ -1607,12 +1630,20 @@ def c16(rep, tier):
 def loop_rules(R, m, rep):
     dl = m.fn('dispatchLoop')
     rep.analysed(dl)
-    g = m.cfg(dl)
-    jc = find_factory_ev(m, g, 'JmpC')
-    add = find_factory_ev(m, g, 'Add')
-    jm = find_factory_ev(m, g, 'Jmp')
-    dvs = g.calls_to('dispatchValue')
-    body = g.calls_to('dispatchVoid')
+
+    def shape(fx):
+        g_ = m.cfg(fx)
+        return (g_, find_factory_ev(m, g_, 'JmpC'), find_factory_ev(m, g_, 'Add'), find_factory_ev(m, g_, 'Jmp'), g_.calls_to('dispatchValue'), g_.calls_to('dispatchVoid'))
+    g, jc, add, jm, dvs, body = shape(dl)
+    if not (len(jc) == 1 and len(add) == 1 and len(jm) == 1 and len(dvs) == 1 and len(body) == 1):
+        # parts of the lowering may live in helpers that are called from here only (openLoop/closeLoop ...): look at the function with
+        # those helpers put back
+        from .inline import inlined
+        dl2, names = inlined(m.facts, dl, rounds=2, single_use=False, want=lambda h, call: not h['q'].startswith(('dispatch', 'gen_ast')))
+        if names:
+            g2, jc2, add2, jm2, dvs2, body2 = shape(dl2)
+            if len(jc2) == 1 and len(add2) == 1 and len(jm2) == 1 and len(dvs2) == 1 and len(body2) == 1:
+                dl, g, jc, add, jm, dvs, body = dl2, g2, jc2, add2, jm2, dvs2, body2
     if not (len(jc) == 1 and len(add) == 1 and len(jm) == 1 and len(dvs) == 1 and len(body) == 1):
         R.unknown('dispatchLoop', 'lowering shape not recognised (JmpC/Add/Jmp/dispatchValue/dispatchVoid = %d/%d/%d/%d/%d)' % (
             len(jc), len(add), len(jm), len(dvs), len(body)))
@@ -1648,12 +1679,26 @@ def loop_rules(R, m, rep):
             'name includes gs.loops, which is incremented once per lowering before the body (and thus before any nested loop) is lowered',
             'counter name is not unique per loop: %s' % ('gs.loops is incremented only after the body was lowered, so a nested loop on the same line gets the same counter register'
                                                         if uses_loops and len(incs) == 1 and not g.dominates(incs[0], body) else 'nested loops would share it'), W(m, dl))
+    # ... and the number only ever grows: no other function writes it
+    for f2 in m.all_fns():
+        for x in walk_all_exprs(f2['body']):
+            tgt = None
+            if x.get('k') == 'assign':
+                tgt = x['l']
+            elif x.get('k') == 'un' and x['op'] in ('--',):
+                tgt = x['e']
+            elif x.get('k') == 'un' and x['op'] == '++' and f2['q'] != 'dispatchLoop':
+                tgt = x['e']
+            if tgt is not None and field_chain(tgt)[1][-1:] == ['loops']:
+                R.violation('%s: %s' % (f2['q'], show(x)[:40]), 'the loop number that makes counter names unique is written outside its one increment in dispatchLoop (%s): two loops can get the '
+                            'same number, and with equal file and line (a macro body used inside itself) they share their counter register' % show(x)[:40], W(m, f2, x),
+                            witness={'input': 'a multi-line macro containing LOOP, used nested inside its own body slot'})
     # order
     sl = g.calls_to('GenState::setLabel')
     start_l = strip_casts(jm.e['args'][0])
     end_l = strip_casts(jc.e['args'][0])
-    set_start = [ev for ev in sl if m.same_var(ev.e['args'][0], start_l)]
-    set_end = [ev for ev in sl if m.same_var(ev.e['args'][0], end_l)]
+    set_start = [ev for ev in sl if m.same_var(ev.e['args'][0], start_l, dl)]
+    set_end = [ev for ev in sl if m.same_var(ev.e['args'][0], end_l, dl)]
     if len(set_start) != 1 or len(set_end) != 1:
         R.violation('dispatchLoop: labels', 'back-jump/exit labels are not each set once', W(m, dl))
         return
@@ -2120,6 +2165,16 @@ def c20_gen(rep, tier):
                 A2.violation(inst, 'unchecked conversion (%s); %s' % (why, exc[1]), '%s:%d' % (os.path.relpath(f['file'], facts.repo), call['loc'][0]))
     A3 = rep.rule('C20.A3', 'constants handed to Add / LoadConstant are literals, checked conversions, or their negation', floor=5)
     g = gm
+    # ... and the operand type of the instruction holds every range-checked value (the check is against INT_MAX)
+    WIDTH_ = {'long': 8, 'long long': 8, 'unsigned long': 8, 'unsigned long long': 8, 'int': 4, 'unsigned int': 4, 'short': 2, 'unsigned short': 2,
+              'char': 1, 'signed char': 1, 'unsigned char': 1, 'bool': 1}
+    td = gm.facts.typedefs.get('Theo::Constant')
+    if td is not None:
+        ct = (td.get('cty') or '').replace('const ', '')
+        A3.check(ct in WIDTH_ and WIDTH_[ct] >= 4 and not ct.startswith('unsigned'), 'instruction operand type Constant', 'Constant is %s: every literal below 2^31-1 and its negation fits' % ct,
+                 'Constant is %s, but literals are range-checked against INT_MAX only: a constant of %d or more is silently truncated when the instruction is built '
+                 '(a := 40000 stores another value; x - 100000 adds)' % (ct, 2 ** (8 * WIDTH_.get(ct, 4) - 1)), 'VM/include/instr.hpp',
+                 witness={'input': 'a := 40000'} if ct in WIDTH_ and WIDTH_[ct] < 4 else None)
     for f in g.all_fns():
         for e in walk_all_exprs(f['body']):
             if e.get('k') == 'call' and (g.is_factory(e, 'Add') or g.is_factory(e, 'LoadConstant')):
@@ -2229,6 +2284,12 @@ def silent_exception(facts, mm, f, users):
                 frontier = nxt
             ok = any(x.get('k') == 'call' and 'strToInt' in (x.get('callee') or '') and not (x.get('callee') or '').endswith('Silent')
                      for b in bodies for x in walk_all_exprs(b))
+            # the re-read yields the very value that was validated: both conversions return the same type, into a variable of the same type
+            chk = [x for x in facts.functions if x['file'] == f['file'] and 'strToInt' in x['q'] and not x['q'].endswith('Silent') and x.get('body') is not None]
+            sil = [x for x in facts.functions if x['file'] == f['file'] and x['q'] == (c2.get('callee') or '')]
+            if chk and sil and (chk[0].get('ret_cty') or chk[0].get('ret')) != (sil[0].get('ret_cty') or sil[0].get('ret')):
+                return False, ('the checked conversion %s returns %s but the silent re-read %s returns %s: a $n beyond the narrower type is validated as one index and used as '
+                               'another' % (chk[0]['q'], chk[0].get('ret_cty') or chk[0].get('ret'), sil[0]['q'], sil[0].get('ret_cty') or sil[0].get('ret')))
             ins = 'INSERTION' in ' '.join(show(x) for b in bodies for x in walk_all_exprs(b) if x.get('k') == 'bin')
             if ok and ins and g2['q'] == 'get_replacement':
                 return True, 'the INSERTION token text was converted and index-checked in extract_macros'
